@@ -213,6 +213,54 @@ func jsonToJdoc(v any) *Sx {
 	return L(A("jnull"), A("0"))
 }
 
+// every object of the tree that has a "type" member (a field definition)
+func fieldDefs(d *Sx, acc *[]*Sx) {
+	if d.Head() != "jo" {
+		return
+	}
+	for _, kv := range d.List[1].List {
+		if string(kv.List[0].Hex()) == "type" {
+			*acc = append(*acc, d)
+		}
+		fieldDefs(kv.List[1], acc)
+	}
+}
+
+// targeted edit: one field definition changes its type (a primitive becomes a Composite without subfields, a composite a
+// primitive, ...) or loses one of its members
+func retypeJdoc(r *Rng, d *Sx) *Sx {
+	var defs []*Sx
+	fieldDefs(d, &defs)
+	if len(defs) == 0 {
+		return d
+	}
+	target := defs[r.Intn(len(defs))]
+	var rec func(x *Sx) *Sx
+	rec = func(x *Sx) *Sx {
+		if x.Head() != "jo" {
+			return x
+		}
+		var kvs []*Sx
+		drop := ""
+		if x == target && r.Intn(3) == 0 {
+			drop = Pick(r, []string{"subfields", "prefix", "enc", "length", "tag", "bitmap", "padding"})
+		}
+		for _, kv := range x.List[1].List {
+			k := string(kv.List[0].Hex())
+			if x == target && k == drop {
+				continue
+			}
+			if x == target && k == "type" && drop == "" {
+				kvs = append(kvs, L(kv.List[0], L(A("js"), X([]byte(Pick(r, []string{"Composite", "String", "Numeric", "Binary", "Bitmap", "Hex", "Track1", "Track2", "Track3"}))))))
+				continue
+			}
+			kvs = append(kvs, L(kv.List[0], rec(kv.List[1])))
+		}
+		return L(A("jo"), L(kvs...))
+	}
+	return rec(d)
+}
+
 // random edit of a document tree: drop / rename a key, wrong type, null member, negative length, unknown names
 func mutateJdoc(r *Rng, d *Sx, depth int) *Sx {
 	if d.Head() != "jo" {
@@ -332,8 +380,12 @@ func init() {
 			emit(L(A("specjson.import"), doc))
 			for k := 0; k < 6; k++ {
 				m := doc
-				for e := 0; e <= r.Intn(2); e++ {
-					m = mutateJdoc(r, m, 0)
+				if k >= 4 {
+					m = retypeJdoc(r, m)
+				} else {
+					for e := 0; e <= r.Intn(2); e++ {
+						m = mutateJdoc(r, m, 0)
+					}
 				}
 				emit(L(A("specjson.import"), m))
 			}
